@@ -1026,6 +1026,32 @@ class Engine:
         callee_body = None
         if fn and not in_tr:
             callee_body = self.facts.body(name)
+            if callee_body is not None and not fn.get('resolved') and callee_body.impl_trait is None and '::' in declared and \
+                    callee_body.path == declared:
+                # `<P as Trait>::method` / `dyn Trait` where the method has a *provided* body in the trait: the default is
+                # what runs only for implementing types that do not override it
+                trait_path, meth = declared.rsplit('::', 1)
+                impls_ = [im for c_ in self.facts.crates for im in c_.impls if (im.get('trait') or '').split('<')[0] == trait_path.split('<')[0]]
+                if impls_:
+                    over_ = [im for im in impls_ if any(it['name'] == meth for it in im.get('items', []))]
+                    pick = None
+                    targs0 = fn.get('targs') or []
+                    t0 = fr.body.crate.types[targs0[0]] if targs0 else {}
+                    want = fr.subst.get(t0.get('s')) if t0.get('k') == 'param' else (t0.get('s') if t0.get('k') == 'adt' else None)
+                    if want is not None:
+                        mine = [im for im in over_ if im['self'].split('<')[0] == want.split('<')[0]]
+                        pick = mine[0] if mine else 'default'
+                    elif not over_:
+                        pick = 'default'
+                    elif len(impls_) == 1:
+                        pick = over_[0]
+                    if pick is None:
+                        callee_body = None          # several implementations behave differently: the call stays opaque
+                        name = declared
+                    elif pick != 'default':
+                        path_ = [it['path'] for it in pick['items'] if it['name'] == meth][0]
+                        callee_body = self.facts.body(path_)
+                        name = path_ if callee_body is not None else declared
             if callee_body is None and fr.subst and (fn.get('targs') or []):
                 # `<P as Trait>::method` inside a generic function inlined with P known: pick the impl for that type
                 t0 = fr.body.crate.types[fn['targs'][0]]
